@@ -321,3 +321,19 @@ Proof. intros val s b v n H. eapply decode_consumed; eauto. Qed.
 (* The two branches of the model that stand for Go run-time failures behind an over-long consumed count
    (slice bounds out of range in decodeMapKVPair / ReadSequenceOfObjects, the failing Skip in decodeStructFields)
    are therefore unreachable; the field decoders below never report the Skip error either. *)
+
+(* Iteration bound of the loop of ReadSequenceOfObjects when elements need at least one byte. *)
+Lemma seq_iterations : forall cnt len tot fuel,
+  seq_fuel false cnt len tot = Some fuel -> (fuel <= len + 1)%nat.
+Proof. intros cnt len tot fuel H. unfold seq_fuel in H. injection H as <-. lia. Qed.
+
+(* Finding D02d in the model: with zero-size elements the count alone drives the loop (whatever the remaining
+   input length [len]); beyond |input|+1 iterations the model gives up with EUnbounded. *)
+Lemma refuted_zero_size_iterations :
+  (forall cnt len tot, cnt <= N.of_nat tot + 1 -> seq_fuel true cnt len tot = Some (N.to_nat cnt)) /\
+  zero_size (SStruct None FNil) = true /\
+  Decode false (SSlice L16 (mkAR 0 0 false false false false [] false) (SStruct None FNil)) [255; 255] = Err EUnbounded.
+Proof.
+  split; [| split; vm_compute; reflexivity].
+  intros cnt len tot H. unfold seq_fuel. apply N.leb_le in H. rewrite H. reflexivity.
+Qed.
